@@ -65,6 +65,18 @@ digits (⇔ integral and below 10^6 in magnitude). -/
 def Flt.textAsInt (f : Flt) : Bool :=
   f.m == 0 || (decide (0 ≤ f.e) && decide (f.m * 2 ^ f.e.toNat < 1000000))
 
+/-- canonical representative: `m` odd, or `m = 0 ∧ e = 0` (what a float64 decomposes into) -/
+def Flt.canonical (f : Flt) : Bool := (f.m == 0 && f.e == 0) || f.m % 2 == 1
+
+/-- THE VALUE of a float, as an exact dyadic rational `n · 2^e` in the form `(n, e)` with `e ≤ 0`
+(`e = 0` for integral values): zero is `(0, 0)` whatever its sign, an integral value `± m·2^e`
+(`0 ≤ e`) is `(± m·2^e, 0)`, anything else `(± m, e)`.  On canonical representatives two floats have
+the same `val` iff they are the same real number. -/
+def Flt.val (f : Flt) : Int × Int :=
+  if f.m = 0 then (0, 0)
+  else if 0 ≤ f.e then (f.intVal, 0)
+  else ((if f.neg then -(Int.ofNat f.m) else Int.ofNat f.m), f.e)
+
 inductive Lit
   | null
   | bool (b : Bool)
@@ -82,6 +94,12 @@ implementation-defined out-of-range conversion never happens; +2^63 is excluded,
 -2^63 included): the value is integral and fits int64.  Includes ±0. -/
 def Flt.jsonAsInt (f : Flt) : Bool :=
   f.m == 0 || (decide (0 ≤ f.e) && inInt64 f.intVal)
+
+/-- the numeric value of a number literal as an exact dyadic rational (`none` for non-numbers) -/
+def Lit.val : Lit → Option (Int × Int)
+  | .int i => some (i, 0)
+  | .flt f => some f.val
+  | _ => none
 
 /-- What survives of a scalar after `MarshalJSON` → JSON text → token class: a
 float written in integer syntax is an integer-class number of the same value. -/
